@@ -147,12 +147,14 @@ fn native_fiin_new() {
     println!("NATIVE native_fiin_new cases={cases}");
 }
 
-//@unit props=C10 label=B tier=quick native=1 fn=fiin::FileInfo::{write_to_buffer,from_existing} bound="by execution: tables of 0..6 entries; names of 1, 5, 31, 62 and 63 bytes, ASCII and multi-byte UTF-8 (2-, 3- and 4-byte characters)"
+//@unit props=C10 label=B tier=quick native=1 fn=fiin::FileInfo::{write_to_buffer,from_existing} bound="by execution: tables of 0..6 entries; names of 1, 5, 31, 62, 63 and 64 bytes, ASCII and multi-byte UTF-8 (2-, 3- and 4-byte characters)"
 //@desc a written table is magic + 16 zero bytes + 1024 + 96*n + 992 zero bytes + n records of 96 bytes (size LE at 0, name at 8 zero-padded to 64, digest at 72 padded to 24) and parses back to the same names, sizes and digests
 #[test]
 fn native_fiin_roundtrip() {
     let names: Vec<String> = vec!["a".into(), "a.dat".into(), "é.d".into(), "日本語.win32.index".into(), "x".repeat(31), "y".repeat(62), "z".repeat(63),
-                                  format!("{}é", "q".repeat(61)), format!("𝄞{}", "k".repeat(59))];
+                                  format!("{}é", "q".repeat(61)), format!("𝄞{}", "k".repeat(59)),
+                                  // names that fill the 64-byte field completely (no terminator is stored)
+                                  "w".repeat(64), format!("{}é", "f".repeat(62))];
     let mut cases = 0u64;
     for n in 0..=6usize {
         for shift in 0..names.len() {
